@@ -36,6 +36,13 @@ def binpath(flavour, name):
     return os.path.join(V, 'build', flavour + _tag(), 'bin', name)
 
 
+def harness_cmd(flavour, name):
+    """C++ harness binary, or a Python harness (harness/<name>.py, same command-line protocol; flavour selects its lcx)."""
+    if name.endswith('.py'):
+        return [sys.executable, os.path.join(V, 'harness', name), '--flavour=' + flavour]
+    return [binpath(flavour, name)]
+
+
 def crash_signature(stderr, rc):
     """Stable class of an abnormal termination: kind + first libcellml frame (function name only)."""
     kind = None
@@ -108,7 +115,7 @@ class Check:
             to = max(60.0, per_case_timeout * (hi - cur))
             t0 = time.time()
             try:
-                r = subprocess.run([exe, 'run', family, str(cur), str(hi), pf] + args, capture_output=True, env=env, timeout=to)
+                r = subprocess.run(exe + ['run', family, str(cur), str(hi), pf] + args, capture_output=True, env=env, timeout=to)
                 rc, so, se = r.returncode, r.stdout, r.stderr
                 timed_out = False
             except subprocess.TimeoutExpired as e:
@@ -143,7 +150,7 @@ class Check:
             if timed_out:
                 # re-run the suspect alone with a long limit before calling it a hang
                 try:
-                    r2 = subprocess.run([exe, 'run', family, str(p), str(p + 1)] + args, capture_output=True, env=env, timeout=max(120.0, per_case_timeout * 30))
+                    r2 = subprocess.run(exe + ['run', family, str(p), str(p + 1)] + args, capture_output=True, env=env, timeout=max(120.0, per_case_timeout * 30))
                     if r2.returncode == 0:
                         for line in r2.stdout.decode('utf-8', 'replace').splitlines():
                             if line.startswith('{'):
@@ -168,13 +175,13 @@ class Check:
         return out_viol, out_stats
 
     def run_family(self, flavour, harness, family, lo=0, hi=None, chunk=None, per_case_timeout=2.0, args=None, env=None, nsamples=2):
-        exe = binpath(flavour, harness)
+        exe = harness_cmd(flavour, harness)
         e = dict(os.environ)
         e.update(ASAN_ENV)
         if env:
             e.update(env)
         args = list(args or [])
-        n = int(subprocess.run([exe, 'count', family] + args, capture_output=True, text=True, env=e, check=True).stdout.strip())
+        n = int(subprocess.run(exe + ['count', family] + args, capture_output=True, text=True, env=e, check=True).stdout.strip())
         if hi is None or hi > n:
             hi = n
         total = max(0, hi - lo)
@@ -195,7 +202,7 @@ class Check:
                     for k, v in s.get('counters', {}).items():
                         self.counters[k] = self.counters.get(k, 0) + v
                 for v in viol:
-                    v['harness'], v['flavour'], v['args'] = harness, flavour, args + list(v.get('args', []))
+                    v['harness'], v['flavour'], v['args'], v['env'] = harness, flavour, args + list(v.get('args', [])), dict(env or {})
                     self.raw.append(v)
         if fam['evaluated'] < total:
             self.exhaustive = False
@@ -203,7 +210,7 @@ class Check:
         if total > 0:
             for idx in sorted(set([lo, lo + total // 2, hi - 1]))[:nsamples]:
                 try:
-                    s = subprocess.run([exe, 'show', family, str(idx)] + args, capture_output=True, text=True, env=e, timeout=60).stdout.strip()
+                    s = subprocess.run(exe + ['show', family, str(idx)] + args, capture_output=True, text=True, env=e, timeout=60).stdout.strip()
                     self.samples.append({'harness': harness, 'family': family, 'index': idx, 'case': json.loads(s) if s.startswith(('{', '[', '"')) else s[:2000]})
                 except Exception as ex_:
                     self.samples.append({'harness': harness, 'family': family, 'index': idx, 'case': 'show failed: %s' % ex_})
@@ -211,12 +218,13 @@ class Check:
 
     # ---------------------------------------------------------------- replay of one recorded violation
     def rerun(self, v):
-        exe = binpath(v['flavour'], v['harness'])
+        exe = harness_cmd(v['flavour'], v['harness'])
         e = dict(os.environ)
         e.update(ASAN_ENV)
+        e.update(v.get('env', {}))
         pf = os.path.join(self.scratch, 'rp.%d' % threading.get_ident())
         try:
-            r = subprocess.run([exe, 'run', v['family'], str(v['i']), str(v['i'] + 1), pf] + list(v.get('args', [])), capture_output=True, env=e, timeout=600)
+            r = subprocess.run(exe + ['run', v['family'], str(v['i']), str(v['i'] + 1), pf] + list(v.get('args', [])), capture_output=True, env=e, timeout=600)
             rc, so, se = r.returncode, r.stdout.decode('utf-8', 'replace'), r.stderr.decode('utf-8', 'replace')
         except subprocess.TimeoutExpired:
             return ['hang']
@@ -234,9 +242,11 @@ class Check:
         return sigs
 
     def show(self, v):
-        exe = binpath(v['flavour'], v['harness'])
+        exe = harness_cmd(v['flavour'], v['harness'])
         try:
-            s = subprocess.run([exe, 'show', v['family'], str(v['i'])] + list(v.get('args', [])), capture_output=True, text=True, timeout=60).stdout.strip()
+            e = dict(os.environ)
+            e.update(v.get('env', {}))
+            s = subprocess.run(exe + ['show', v['family'], str(v['i'])] + list(v.get('args', [])), capture_output=True, text=True, timeout=60, env=e).stdout.strip()
             return json.loads(s)
         except Exception:
             return None
@@ -352,11 +362,12 @@ class Check:
 def replay_file(path):
     """bin/check Cxx --replay <file>: re-executes exactly that case, without the explorer."""
     rec = json.load(open(path))
-    build(rec['flavour'], [rec['harness']])
-    exe = binpath(rec['flavour'], rec['harness'])
+    build(rec['flavour'], ['lcx'] if rec['harness'].endswith('.py') else [rec['harness']])
+    exe = harness_cmd(rec['flavour'], rec['harness'])
     e = dict(os.environ)
     e.update(ASAN_ENV)
-    r = subprocess.run([exe, 'run', rec['family'], str(rec['i']), str(rec['i'] + 1)] + list(rec.get('args', [])) + ['-v'], capture_output=True, env=e, timeout=1200)
+    e.update(rec.get('env', {}))
+    r = subprocess.run(exe + ['run', rec['family'], str(rec['i']), str(rec['i'] + 1)] + list(rec.get('args', [])) + ['-v'], capture_output=True, env=e, timeout=1200)
     so, se = r.stdout.decode('utf-8', 'replace'), r.stderr.decode('utf-8', 'replace')
     sys.stdout.write(so)
     if r.returncode != 0:
